@@ -54,10 +54,15 @@ def _lab(x):
 def harness(prop, name=None, params=None, functions=None, bounds=None, outside=None,
             max_paths=20000, max_decisions=2000, tier_params=None, label=None):
     """tier_params: optional {'quick': [...], 'thorough': [...]} overriding params per tier."""
+    import sys
+    module = sys._getframe(1).f_globals.get('__name__')
+
     def deco(fn):
         h = Harness(fn, prop, name or fn.__name__, params, functions, bounds, outside,
                     max_paths=max_paths, max_decisions=max_decisions, label=label)
         h.tier_params = tier_params
+        if module:
+            h.module = module
         REGISTRY[(prop, h.name)] = h
         fn.harness = h
         return fn
@@ -170,6 +175,9 @@ class ConcCtx(object):
         if ndigits > 1 and digs[0] == '0':
             raise ConcAbort('leading zero')
         return decimal.Decimal(('-' if neg else '') + digs + 'E%d' % exp)
+
+    def mkdict(self, pairs):
+        return dict(pairs)
 
     def offset_minutes(self, dt):
         off = dt.utcoffset()
